@@ -89,7 +89,7 @@ func c20Features(src string) []string {
 	add(strings.Contains(src, "{{"), "mustache")
 	add(strings.Contains(src, "&") && !strings.Contains(src, "&&"), "ampersand-or-entity")
 	add(strings.Contains(src, `\`), "backslash")
-	add(strings.Contains(src, "<") , "angle")
+	add(strings.Contains(src, "<"), "angle")
 	return f
 }
 
